@@ -23,6 +23,8 @@ import Emboss.Lemmas.FmtSeparableOK
 import Emboss.Lemmas.FmtIdem
 import Emboss.Lemmas.FmtCommentOK
 import Emboss.Lemmas.FmtBlank
+import Emboss.Lemmas.FmtRetokCells
+import Emboss.Lemmas.FmtRetokEx
 namespace Emboss.Fmt
 open Emboss.Generated.FmtTable
 
@@ -268,14 +270,16 @@ def exTree2 : Tree :=
     .node (ix "attribute-line*" []) [],
     .node (ix "type-definition*" []) []]
 
-example : equivC exTree exTree2 = true ∧ exTree ≠ exTree2 := by
-  constructor
-  · decide +kernel
-  · intro h; simp [exTree, exTree2] at h
+example : exTree ≠ exTree2 := by
+  intro h; simp [exTree, exTree2] at h
+
+theorem exTree_wf : wf formatters exTree = true := by decide +kernel
+theorem exTree_root : rootSym formatters exTree = startSymbol := by decide +kernel
+theorem exTree_fmt : formatTree 3 exTree = some (.str "-- hi\n# c\n".toList) := by decide +kernel
+theorem exTree_equivC : equivC exTree exTree2 = true := by decide +kernel
 
 example : formatTree 3 exTree2 = some (.str "-- hi\n# c\n".toList) :=
-  C11_format_fixed_point_partial 3 exTree exTree2 _ (by decide +kernel) (by decide +kernel)
-    (by decide +kernel) (by decide +kernel)
+  C11_format_fixed_point_partial 3 exTree exTree2 _ exTree_wf exTree_root exTree_fmt exTree_equivC
 
 /-! ## Blank lines (round 3) -/
 
@@ -355,8 +359,80 @@ theorem exTree23 : EquivB formatters exTree2 exTree3 := by
 example : equivC exTree2 exTree3 = false := by decide +kernel
 
 example : formatTree 3 exTree3 = some (.str "-- hi\n# c\n".toList) :=
-  C11_idempotent_partial 3 exTree exTree2 exTree3 _ (by decide +kernel) (by decide +kernel)
-    (by decide +kernel) (by decide +kernel) exTree23
+  C11_idempotent_partial 3 exTree exTree2 exTree3 _ exTree_wf exTree_root exTree_fmt exTree_equivC exTree23
+
+/-! ## Re-tokenization of the output (round 3) -/
+
+section Retokenize
+open Emboss.FmtTok Emboss.Tok Emboss.Generated
+
+/-- **The formatter's renderer composed with the tokenizer (C10's model), partial.**
+`_module` renders the rows `moduleRows c d i a ty` (comment, documentation, import,
+attribute rows and the rows of the type definitions, interspersed with the section breaks,
+re-indented comments and dedent blanks of the global passes).  If every one of these rows
+has fewer than two columns (what `_columnize` leaves) and its content — the columns
+without trailing blanks — is tokenized by `_tokenize_line` to the leaves (symbol, text)
+`x.2` (`LineToks`), then for every indent width ≥ 1 **`tokenize` accepts the text that
+`_module` returns and yields exactly `E`**: per row its leaves and one end-of-line token;
+rows without tokens or with comments only take no part in indentation; a row deeper than
+the innermost open level opens one (`Indent` carrying `indent_width × difference`
+blanks), a shallower one closes levels down to the one it sits on (`Dedent`s), and the end
+of the text closes every open level — Indent / Dedent / end-of-line tokens are a function
+of the block structure (`expectLeaves`) alone.  `expectLeaves = some E` excludes a dedent
+to a level that was never opened (the tokenizer's "Bad indentation").
+
+Full statement wanted: `tokenize (fmt t)` = the non-layout leaves of `t`, line by line.
+Missing (decided by the oracle on the real code, which re-tokenizes every output): that the
+rows the fold produces for a tree satisfy the hypothesis with the tree's leaves — the
+cells' texts tokenize to the tokens they were built from.  `C11_row_retokenizes_partial`
+below is the blank-separated half of that; the half for texts printed with nothing in
+between is `C11_render_separable` (per pair of terminal classes, audited list, sampled on
+the real tokenizer), which has no tokenizer-model counterpart yet. -/
+theorem C11_retokenize_partial (iw : Nat) (hiw : 0 < iw) (c d i a : List Row) (ty : List (List Row))
+    (rows : List (Row × List Leaf)) (hrows : rows.map Prod.fst = moduleRows c d i a ty)
+    (hr : ∀ x ∈ rows, x.1.columns.length < 2 ∧ LineToks (rowText x.1) x.2) (E : List Leaf)
+    (hE : expectLeaves iw 0 [] (rows.map (fun x => (x.1.indent, x.2))) = some E) :
+    ∃ text toks, Handler.run iw .module [.rows c, .rows d, .rows i, .rows a, .sections ty] =
+        some (.str text) ∧
+      tokenize tokTable.pats text = .ok toks ∧ toks.map leafOf = E := by
+  obtain ⟨text, toks, h1, h2, h3⟩ := tokenize_renderRows iw hiw rows hr E hE
+  refine ⟨text, toks, ?_, h2, h3⟩
+  rw [hModule_eq, ← hrows, h1]; rfl
+
+/-- **One rendered row re-tokenizes to its cells' tokens, partial.**
+(1) Two texts that tokenize to `La` and `Lb`, the first without a comment / documentation
+token, put side by side with `n + 1` blanks between them (`_concatenate_with_spaces`,
+`"  " + comment`, a padded column followed by the next) tokenize to `La ++ Lb`.
+(2) Cells laid out as `_columnize` does — every cell followed by blanks (`ljust`), at least
+one after a non-empty cell, the whole right-stripped; a comment / documentation token only
+in the last non-empty cell — tokenize to the concatenation of the cells' leaves, after `k`
+leading blanks that only occur when the first cell is empty.
+(C10: `C10_concat_with_blank`, `C10_leading_blanks`.)  Missing for the full statement: that
+`_columnize`'s `ljust` widths do leave a blank after every non-empty cell (`colWidth ≥`
+the cell's length), and cells whose parts are printed with nothing in between. -/
+theorem C11_row_retokenizes_partial :
+    (∀ (a b : Str) (La Lb : List Leaf) (n : Nat), LineToks a La → LineToks b Lb → a ≠ [] → b ≠ [] →
+      (∀ l ∈ La, ¬ OpenEnded l.1) → LineToks (a ++ spaces (n + 1) ++ b) (La ++ Lb)) ∧
+    (∀ cells : List (Str × Nat × List Leaf), (∀ x ∈ cells, CellOK x) → OpenLast cells →
+      (rstrip (cellsText cells) = [] ∧ cellsLeaves cells = []) ∨
+      ∃ k s, rstrip (cellsText cells) = spaces k ++ s ∧ s ≠ [] ∧ LineToks s (cellsLeaves cells) ∧
+        (∀ x rest, cells = x :: rest → x.1 ≠ [] → k = 0)) :=
+  ⟨fun _ _ _ _ n ha hb hane hbne ho => LineToks.join n ha hb hane hbne ho, cells_lineToks⟩
+
+/-! Non-vacuity (tests on literals, kernel-evaluated in Lemmas/FmtRetokEx.lean): the rows of
+`struct Foo:` / `  0  [+1]  UInt  x` (a type header and a columnized field at level 1). -/
+
+example : ∃ toks, tokenize tokTable.pats "struct Foo:\n   0  [+1]  UInt  x\n".toList = .ok toks ∧
+    toks.map leafOf = exLeaves := by
+  obtain ⟨text, toks, h1, h2, h3⟩ := C11_retokenize_partial 3 (by decide) [] [] [] []
+    [exRows.map Prod.fst] exRows exRows_module exRows_ok exLeaves exRows_expect
+  have : text = "struct Foo:\n   0  [+1]  UInt  x\n".toList := by
+    rw [exRows_text] at h1
+    cases h1; rfl
+  subst this
+  exact ⟨toks, h2, h3⟩
+
+end Retokenize
 
 /-- **The global row passes are projections** (a necessary ingredient of idempotence that
 needs no tokenizer): stripping leading/trailing empty comment rows, re-indenting blank and
